@@ -20,6 +20,7 @@
 From Coq Require Import List NArith ZArith Bool String.
 From stdpp Require Import pmap.
 From OV Require Import Base.Bytes Base.Cases Base.Tree Model.Hier Model.Stream Model.Heap Model.HeapReaders Model.HeapReadersHier
+  Gen.NodeReset Model.HeapReset Proofs.HeapReset Gen.NodeOps Model.HeapOpsGen Proofs.HeapOpsGen
   Proofs.HeapIds Proofs.HeapTree Proofs.HeapOps Proofs.HeapRep Proofs.Heap Proofs.HeapReader Proofs.HeapCheck
   Proofs.HeapPay Proofs.HeapZip Proofs.HeapPrims Proofs.HeapReaders Proofs.HeapReadersJson
   Proofs.HeapReadersHier.
@@ -199,6 +200,71 @@ Theorem edi_reader_respects_api : forall caching choose nm cols try_leaf,
     map snd dl = fst (Hier.run (edi_step try_leaf) fuel (Hier.init ds us)).
 Proof. exact edi_reader_pf. Qed.
 
+(* (7) An error, and any Read after a terminal result, touches no node (the C12-r42 class: a reader
+   that "cleans up" its stack on a fatal error releases the stale pointer of an already released
+   target a second time).  Every step of the hierarchy / EDI machines that RETURNS - a delivery,
+   EOF, ErrFewerThanMinOccurs, unexpected data, a model panic - returns in exactly the state it was
+   called in (machine, forest, log included), for every state whatsoever; and from a state that
+   satisfies the invariant, calling Read again after a terminal result, any number of times, finds
+   no target to release and returns the same terminal result in the same state. *)
+Theorem hier_error_issues_no_call : forall caching choose nm cols try_leaf a o a',
+  hstep_a caching choose nm cols try_leaf a = Some (ARet o a') -> a' = a.
+Proof. exact hstep_a_ret. Qed.
+
+Theorem edi_error_issues_no_call : forall caching choose nm cols try_leaf a o a',
+  edi_step_a caching choose nm cols try_leaf a = Some (ARet o a') -> a' = a.
+Proof. exact edi_step_a_ret. Qed.
+
+Theorem read_after_terminal_touches_nothing : forall caching step_a,
+  (forall a o a', step_a a = Some (ARet o a') -> a' = a) ->
+  forall a e, HInv caching a -> a_tgt a = None -> step_a a = Some (ARet (OTerm e) a) ->
+  forall k, read_again caching step_a k a = Some (repeat e k, a).
+Proof. exact read_again_stable. Qed.
+
+(* (8) Tie to the source: Gen/NodeReset.v is regenerated on every run from idr/node.go - the fields of
+   `type Node struct` and the assignments of (n *Node).reset().  The model's [blank] (what fresh_blank,
+   pool blankness and the recycle specification are stated with) is the effect of the EXTRACTED
+   reset() on any node; the extracted field list is the model's; reset() assigns every field.  A
+   field added to Node, or one that reset() forgets, stops these from checking. *)
+Theorem reset_source_is_blank : forall id x, go_reset id x = Some (blank id).
+Proof. exact go_reset_blank. Qed.
+
+Theorem node_fields_modelled : node_fields = model_fields.
+Proof. exact node_fields_ok. Qed.
+
+Theorem reset_assigns_every_field : forall f, In f node_fields -> In f (map fst node_reset_assigns).
+Proof. exact reset_covers_all_fields. Qed.
+
+(* ---- the link surgery is the source's (Gen/NodeOps.v) ------------------------------------------ *)
+(* The extractor turns the bodies of idr.AddChild and of idr.RemoveAndReleaseTree (up to its
+   recycle call) into pointer programs; Model/HeapOpsGen.v runs such a program on the heap (a
+   selector is a load, an assignment a store, a nil or dangling dereference a panic).  On EVERY heap
+   - well-formed or not - and for ALL arguments - aliased, dangling, first/middle/last/only child -
+   the extracted program and the hand transcription the other theorems are about end in the same
+   heap, or both panic ([oeq] ignores which statement panicked). *)
+Theorem add_child_source_is_model : forall h p n,
+  oeq (exec_prog [p; n] h add_child_prog) (add_child h p n).
+Proof. exact add_child_gen_eq. Qed.
+
+Theorem unlink_source_is_model : forall h n,
+  oeq (exec_prog [n] h remove_unlink_prog) (unlink h n).
+Proof. exact unlink_gen_eq. Qed.
+
+(* ... so refinement (1) holds with the link surgery done by the extracted programs: from every
+   represented state, for every call whose precondition holds - attaching under a parent with or
+   without children, removing a child at any position - the source's pointer updates neither
+   panic nor leave a broken link, and the forest changes by exactly graft / prune. *)
+Theorem source_links_refine_forest : forall caching s F o,
+  Rep caching s F -> pre_b caching s F o = true ->
+  exists s' ret, step_src caching s o = Ok (s', ret) /\ Rep caching s' (aeffect s F o).
+Proof. exact source_refines_forest_pf. Qed.
+
+(* The case check the harness evaluates replays every history with step_src - the implementation's
+   observed field changes are compared with the run of the extracted programs - and it is the
+   check stated with the hand transcriptions. *)
+Theorem case_check_runs_extracted_programs : forall c, check_case_src c = check_case c.
+Proof. exact check_case_src_eq. Qed.
+
 (* ---- non-vacuity ------------------------------------------------------------------------------ *)
 (* A history that builds a tree, removes a middle subtree (two nodes are reset and pooled) and
    creates two nodes that reuse the pooled ones, attaching one of them elsewhere. *)
@@ -235,6 +301,16 @@ Proof.
   - rewrite Hp. discriminate.
   - reflexivity.
 Qed.
+
+
+(* the extracted programs run the example history (appends to empty and non-empty child lists, a
+   removal of a middle child with a child) to the same state as the model; and both panic on a
+   dangling argument *)
+Example c12_source_links_nonvacuous :
+  (exists s r, run_src true init ex_ops = Ok s /\ run true init ex_ops = Ok (s, r) /\ pool s = []) /\
+  exec_prog [7%positive] (heap init) remove_unlink_prog = Panic 0 /\ unlink (heap init) 7 = Panic 20 /\
+  length add_child_prog = 4 /\ length remove_unlink_prog = 1.
+Proof. vm_compute. split; [eexists; eexists; split; [reflexivity|split; reflexivity]|]. repeat split. Qed.
 
 (* The API preconditions are needed (each of these was also run on the Go code, which does the
    same): releasing a node twice puts it into the pool twice, and two later creates hand out the
@@ -308,6 +384,24 @@ Example c12_hier_bridge_nonvacuous :
   | None => False
   end.
 Proof. vm_compute. split; reflexivity. Qed.
+
+(* a target with min 2 and one instance only: one delivery, then ErrFewerThanMinOccurs at EOF;
+   three more Reads return the same error and leave the state as it is *)
+Example c12_terminal_nonvacuous :
+  let ds := [D 1 false true 2 None (LName 7) []] in
+  let us := [U 7 100] in
+  let stepf := hstep_a true ex_choose (fun _ => []) (fun _ _ => [([], [])]) flat_leaf in
+  match init_a true ex_choose (fun _ => []) ex_m0 ds us with
+  | Some a0 =>
+      match run_a true stepf 40 a0 with
+      | Some (a', dl) =>
+          length dl = 1 /\ stepf a' = Some (ARet (OTerm (TErrMin 1 1)) a') /\
+          read_again true stepf 3 a' = Some ([TErrMin 1 1; TErrMin 1 1; TErrMin 1 1], a')
+      | None => False
+      end
+  | None => False
+  end.
+Proof. vm_compute. repeat split. Qed.
 
 Example c12_reader_nonvacuous :
   snd (reader_run (mkR None None)
